@@ -278,13 +278,15 @@ func c20Handle(req string) string {
 
 func runC20(c *Ctx) {
 	c.Rule("for every client operation (stat, open, readlink, readdir, rename, sequential read, statvfs, concurrent ReadAt, WriteTo): the valid reply cut at every byte, " +
-		"every 4-byte window replaced by 0,1,n-1,n+1,2^20,2^31-1,2^32-1, every other reply type substituted, random bytes; each case in a child process; " +
+		"every 4-byte window replaced by 0,1,n-1,n+1,2^20,2^31-1,2^32-1 and the multiples of 2^29 (counts whose size computation wraps), every other reply type substituted, random bytes; for stat and readdir additionally replies carrying extended attributes, mutated the same way; each case in a child process; " +
 		"non-trivial = reply that is not the valid one")
 	valid := map[string][]byte{
 		"status":   pkt(fxpStatus, 0).u32(2).str("no such file").str("en").b,
 		"statusok": pkt(fxpStatus, 0).u32(0).str("").str("").b,
 		"handle":   pkt(fxpHandle, 0).str("handle-1").b,
 		"attrs":    pkt(fxpAttrs, 0).raw(validAttrsBody()).b,
+		"attrsx":   pkt(fxpAttrs, 0).u32(0x8000000f).u64(24).u32(1).u32(2).u32(0o100644).u32(3).u32(4).u32(2).str("t1").str("d1").str("t2").str("").b,
+		"namesx":   pkt(fxpName, 0).u32(2).str("x").str("lx").u32(0x80000000).u32(1).str("user.k").str("v").str("y").str("ly").u32(0).b,
 		"name1":    pkt(fxpName, 0).u32(1).str("/target").str("/target").u32(0).b,
 		"names":    pkt(fxpName, 0).u32(3).str(".").str("l1").u32(0).str("a/b").str("l2").raw(validAttrsBody()).str("zz").str("l3").u32(4).u32(0o40755).b,
 		"data":     pkt(fxpData, 0).str("ABCDEFGH").b,
@@ -367,6 +369,12 @@ func runC20(c *Ctx) {
 		}
 		for mi, m := range mutants(base, every) {
 			ask(o.name, m, every == 1 && mi == len(base))
+		}
+		// replies that carry extended attributes (a count field the client must bound) for the operations that parse attributes
+		for _, x := range map[string][]string{"stat": {"attrsx"}, "readdir": {"namesx"}}[o.name] {
+			for _, m := range mutants(valid[x], 1) {
+				ask(o.name, m, false)
+			}
 		}
 		for k, v := range valid {
 			ask(o.name, v, k == own[o.name])
